@@ -15,7 +15,7 @@ HARNESS = [
      "search": {"cases": 600, "len": 50}},
     {"bin": "minerpower", "tag": "minerpower",
      "quick": {"cases": 300, "len": 30, "shards": 1},
-     "thorough": {"cases": 3000, "len": 30, "shards": 1},
+     "thorough": {"cases": 1500, "len": 30, "shards": 1},
      "search": {"cases": 900, "len": 30}},
     {"bin": "deadline", "tag": "deadline",
      "quick": {"cases": 150, "len": 30, "shards": 4},
